@@ -18,7 +18,7 @@ ASSUMPTIONS = ['data excludes ~ * : (the converter\'s fixed output delimiters; X
                'the component separator (it is the value of ISA16) is a character XML 1.0 can represent; segment and element separators may be control characters',
                'the id of the <comp> wrapper element is not asserted (the property names elements and components)',
                'the intended map path of each segment is the generator\'s ground truth (unambiguous sub-language, DESIGN 4.1)']
-REQUIRED_COUNTERS = ['docs:with-TA1', 'cli:invocations', 'cli:round-trips-compared', 'docs:component-separator-inside-a-simple-element', 'docs:with-doctype', 'docs', 'segments-compared', 'elements-compared', 'subelements-compared', 'roundtrips', 'docs:escaped-chars', 'docs:repeated-loop', 'docs:notused-filled', 'reach:x12xml_simple.seg']
+REQUIRED_COUNTERS = ['docs:data-with-CDATA-end', 'docs:data-with-comment-marks', 'docs:with-TA1', 'cli:invocations', 'cli:round-trips-compared', 'docs:component-separator-inside-a-simple-element', 'docs:with-doctype', 'docs', 'segments-compared', 'elements-compared', 'subelements-compared', 'roundtrips', 'docs:escaped-chars', 'docs:repeated-loop', 'docs:notused-filled', 'reach:x12xml_simple.seg']
 MIN_CASES = {'quick': 200, 'thorough': 6000}
 WATCHDOG_S = {'quick': 1200, 'thorough': 7200}
 
@@ -119,6 +119,10 @@ def judge(ctx, doc, terms, case, sigs):
     seg_t, ele_t, sub_t = terms
     text = doc.text(seg_t, ele_t, sub_t, '\n' if seg_t != '\n' else '')
     ctx.count('docs')
+    if ']]>' in text:
+        ctx.count('docs:data-with-CDATA-end')
+    if '<!--' in text or '-->' in text:
+        ctx.count('docs:data-with-comment-marks')
     prm = None
     if case.get('simple_dtd'):
         # configuration: a DTD named for the simple form -> a DOCTYPE declaration in the rendering, which must stay well formed and convertible
